@@ -7,6 +7,9 @@
 //   unh <A|B|none> <ids>       actor U calls ctx.Unhandled() on every Reply
 //   unhps <k>                  a fresh actor calls ctx.Unhandled() on its PostStart (control traffic: no dead letter)
 //   rmiss <A|B|none|bad> <ids> server-side handler of an inbound remote tell, receiver `ghost` does not exist
+//   rpass <k> <i|b> <A|B|none|bad> <ids>   inbound remote tells for a fresh actor V<k> that is in the middle of being
+//                              passivated (time-based strategy; PostStop is held open by the harness while the handler
+//                              runs; mode i = the actor is idle, b = it is also held inside a long Receive)
 //   rbadr <id> / rbadp <id>    same with an unparseable receiver / an undecodable payload
 //   rtell <k> <ids>            real RemoteTell (coalescer + TCP loop-back) to the missing `ghost`, then a sentinel
 //   batch <k> <specs>          enqueueCoalescedFailure with the real drain goroutine, then a sentinel batch (receiver s<k>)
@@ -35,6 +38,7 @@ import (
 	"github.com/tochemey/goakt/v4/eventstream"
 	"github.com/tochemey/goakt/v4/internal/verifdrv/vlib"
 	"github.com/tochemey/goakt/v4/log"
+	"github.com/tochemey/goakt/v4/passivation"
 	"github.com/tochemey/goakt/v4/remote"
 	testpb "github.com/tochemey/goakt/v4/test/data/testpb"
 )
@@ -106,6 +110,31 @@ func (u *unhandler) Receive(ctx *actor.ReceiveContext) {
 			ctx.Unhandled()
 		}
 	}
+}
+
+// victim: passivated by the time-based strategy; PostStop (and optionally a long Receive) are held open
+type victim struct {
+	inReceive      chan struct{}
+	releaseReceive chan struct{}
+	inPostStop     chan struct{}
+	releasePost    chan struct{}
+	handled        *atomic.Int64
+}
+
+func (v *victim) PreStart(*actor.Context) error { return nil }
+func (v *victim) Receive(ctx *actor.ReceiveContext) {
+	switch ctx.Message().(type) {
+	case *testpb.TestWait:
+		close(v.inReceive)
+		<-v.releaseReceive
+	case *testpb.Reply:
+		v.handled.Add(1)
+	}
+}
+func (v *victim) PostStop(*actor.Context) error {
+	close(v.inPostStop)
+	<-v.releasePost
+	return nil
 }
 
 type plain struct{}
@@ -346,6 +375,59 @@ func (w *world) runEvent(f []string) {
 			}
 			actor.VerifC18DeliverRemoteTell(w.sys, m)
 		}
+	case "rpass":
+		name := "V" + f[1]
+		w.extra.Store(name, true)
+		v := &victim{inReceive: make(chan struct{}), releaseReceive: make(chan struct{}), inPostStop: make(chan struct{}),
+			releasePost: make(chan struct{}), handled: &w.g.leaked}
+		p, err := w.sys.Spawn(context.Background(), name, v,
+			actor.WithPassivationStrategy(passivation.NewTimeBasedStrategy(200*time.Millisecond)))
+		if err != nil {
+			w.problem("spawn-V")
+			return
+		}
+		if f[2] == "b" {
+			_ = actor.Tell(context.Background(), p, new(testpb.TestWait))
+			select {
+			case <-v.inReceive:
+			case <-time.After(waitLimit()):
+				w.problem("stuck:victim-receive")
+				return
+			}
+		}
+		select {
+		case <-v.inPostStop: // passivation is running PostStop: passivatingState is set, stoppingState is not
+		case <-time.After(waitLimit()):
+			w.problem("stuck:passivation")
+			return
+		}
+		for _, id := range ids(f[4]) {
+			m := w.wire('g', id)
+			m.Receiver = w.prefix + name
+			switch f[3] {
+			case "B":
+				m.Sender = actor.VerifC18AddrOf(w.bPID)
+			case "none":
+				m.Sender = ""
+			case "bad":
+				m.Sender = "::not an address::"
+			}
+			actor.VerifC18DeliverRemoteTell(w.sys, m)
+		}
+		close(v.releasePost)
+		deadline := time.Now().Add(waitLimit())
+		for !actor.VerifC18Stopped(p) {
+			if time.Now().After(deadline) {
+				w.problem("stuck:victim-stop")
+				break
+			}
+			time.Sleep(2 * time.Millisecond)
+		}
+		if f[2] == "b" {
+			close(v.releaseReceive)
+		}
+		// let a message that was wrongly enqueued be dequeued (and discarded or handled) before the final count
+		time.Sleep(50 * time.Millisecond)
 	case "rbadr":
 		actor.VerifC18DeliverRemoteTell(w.sys, w.wire('r', f[1]))
 	case "rbadp":
@@ -424,6 +506,8 @@ func cause(reason string) string {
 		return "unhandled"
 	case strings.Contains(reason, "not found"):
 		return "notfound"
+	case strings.Contains(reason, "actor is not alive"):
+		return "notrunning"
 	case strings.Contains(reason, "verif batch failure"):
 		return "batch"
 	}
